@@ -41,3 +41,153 @@ Print Assumptions C13_accounting.
 Theorem C13_order_is_by_type : forall inc, Permutation inc (read_back_order inc).
 Proof. exact of_type_partition. Qed.
 Print Assumptions C13_order_is_by_type.
+
+From SV Require Import Base.Bytes Json.Ast Json.Jcs Json.GoJson Json.GoJsonProofs Resolve.Op Batch.Files Batch.FilesOfBytes Batch.FilesOfBytesProofs.
+Local Close Scope Z_scope.
+
+(* decoding the canonical JSON text of a core index file struct (what the handler writes: docutil.MarshalCanonical) gives the struct back, slices with empty backing arrays, embedded anchor origins in canonical form *)
+Theorem C13_bytes_roundtrip_core_index :
+  forall m : core_index_m,
+         text_ok (core_index_json m) ->
+         Forall create_ok (core_creates m) ->
+         decode_core_index (print_canonical (core_index_json m)) = Some (norm_core_index m).
+Proof. exact rt_core_index. Qed.
+Print Assumptions C13_bytes_roundtrip_core_index.
+
+(* the same for the core proof file *)
+Theorem C13_bytes_roundtrip_core_proof :
+  forall m : core_proof_m,
+         text_ok (core_proof_json m) ->
+         decode_core_proof (print_canonical (core_proof_json m)) =
+         Some {| cpm_recover := fresh (cpm_recover m); cpm_deactivate := fresh (cpm_deactivate m) |}.
+Proof. exact rt_core_proof. Qed.
+Print Assumptions C13_bytes_roundtrip_core_proof.
+
+(* the same for the provisional index file *)
+Theorem C13_bytes_roundtrip_prov_index :
+  forall m : prov_index_m,
+         text_ok (prov_index_json m) ->
+         decode_prov_index (print_canonical (prov_index_json m)) =
+         Some
+           {|
+             pim_proof_uri := pim_proof_uri m;
+             pim_chunks := fresh (pim_chunks m);
+             pim_ops := option_map fresh_prov_ops (pim_ops m)
+           |}.
+Proof. exact rt_prov_index. Qed.
+Print Assumptions C13_bytes_roundtrip_prov_index.
+
+(* the same for the provisional proof file *)
+Theorem C13_bytes_roundtrip_prov_proof :
+  forall m : prov_proof_m,
+         text_ok (prov_proof_json m) ->
+         decode_prov_proof (print_canonical (prov_proof_json m)) =
+         Some {| ppm_update := fresh (ppm_update m) |}.
+Proof. exact rt_prov_proof. Qed.
+Print Assumptions C13_bytes_roundtrip_prov_proof.
+
+(* the same for the chunk file; patches come back in canonical form *)
+Theorem C13_bytes_roundtrip_chunk :
+  forall m : chunk_m,
+         text_ok (chunk_json m) ->
+         Forall delta_ok (sl_elems (ckm_deltas m)) ->
+         decode_chunk (print_canonical (chunk_json m)) =
+         Some
+           {|
+             ckm_deltas :=
+               {|
+                 sl_elems := map (option_map norm_delta) (sl_elems (ckm_deltas m)); sl_stale := []
+               |}
+           |}.
+Proof. exact rt_chunk. Qed.
+Print Assumptions C13_bytes_roundtrip_chunk.
+
+(* the f_parsed fact of Batch/Files.v for a written core index file is the projection of its struct *)
+Theorem C13_bytes_written_core_index_parsed :
+  forall (F : facts) (C : cas) (m : core_index_m),
+         text_ok (core_index_json m) ->
+         Forall create_ok (core_creates m) ->
+         parse_core_index F C (print_canonical (core_index_json m)) =
+         Some (core_index_of_m F C (norm_core_index m)).
+Proof. exact written_core_index_parsed. Qed.
+Print Assumptions C13_bytes_written_core_index_parsed.
+
+(* the same for the core proof file *)
+Theorem C13_bytes_written_core_proof_parsed :
+  forall (F : facts) (m : core_proof_m),
+         text_ok (core_proof_json m) ->
+         parse_core_proof F (print_canonical (core_proof_json m)) =
+         Some
+           {|
+             cp_recovers := proofs_of (fx_id F) (sl_elems (cpm_recover m)) (fx_cp_recover F);
+             cp_deactivates := proofs_of (fx_id F) (sl_elems (cpm_deactivate m)) (fx_cp_deactivate F)
+           |}.
+Proof. exact written_core_proof_parsed. Qed.
+Print Assumptions C13_bytes_written_core_proof_parsed.
+
+(* the same for the provisional index file *)
+Theorem C13_bytes_written_prov_index_parsed :
+  forall (F : facts) (C : cas) (m : prov_index_m),
+         text_ok (prov_index_json m) ->
+         parse_prov_index F C (print_canonical (prov_index_json m)) =
+         Some
+           {|
+             pi_proof := ref_of C (pim_proof_uri m) (parse_prov_proof F);
+             pi_chunks := chunks_of F C (sl_elems (pim_chunks m));
+             pi_updates := map (op_ref_of (fx_id F)) (prov_updates m)
+           |}.
+Proof. exact written_prov_index_parsed. Qed.
+Print Assumptions C13_bytes_written_prov_index_parsed.
+
+(* the same for the provisional proof file *)
+Theorem C13_bytes_written_prov_proof_parsed :
+  forall (F : facts) (m : prov_proof_m),
+         text_ok (prov_proof_json m) ->
+         parse_prov_proof F (print_canonical (prov_proof_json m)) =
+         Some {| pp_updates := proofs_of (fx_id F) (sl_elems (ppm_update m)) (fx_pp_update F) |}.
+Proof. exact written_prov_proof_parsed. Qed.
+Print Assumptions C13_bytes_written_prov_proof_parsed.
+
+(* the same for the chunk file *)
+Theorem C13_bytes_written_chunk_parsed :
+  forall (F : facts) (m : chunk_m),
+         text_ok (chunk_json m) ->
+         Forall delta_ok (sl_elems (ckm_deltas m)) ->
+         parse_chunk F (print_canonical (chunk_json m)) =
+         Some
+           {|
+             ch_deltas :=
+               deltas_of (fx_id F) (map (option_map norm_delta) (sl_elems (ckm_deltas m)))
+                 (fx_deltas F)
+           |}.
+Proof. exact written_chunk_parsed. Qed.
+Print Assumptions C13_bytes_written_chunk_parsed.
+
+(* non-vacuity: the bytes of a core index file written by the real handler are the canonical text of the struct they decode to, the side conditions hold, the struct is in normal form *)
+Theorem C13_bytes_roundtrip_nonvacuous_core_index :
+  decode_core_index ex_core = Some ex_core_m /\
+         print_canonical (core_index_json ex_core_m) = ex_core /\
+         text_okb (core_index_json ex_core_m) = true /\
+         forallb create_okb (core_creates ex_core_m) = true /\
+         norm_core_index ex_core_m = ex_core_m /\
+         (Datatypes.length (core_creates ex_core_m), Datatypes.length (core_recovers ex_core_m),
+          Datatypes.length (core_deactivates ex_core_m)) = (1, 1, 0).
+Proof. exact ex_core_index_written. Qed.
+Print Assumptions C13_bytes_roundtrip_nonvacuous_core_index.
+
+(* the same for the chunk file of that batch (three deltas) *)
+Theorem C13_bytes_roundtrip_nonvacuous_chunk :
+  decode_chunk ex_chunk = Some ex_chunk_m /\
+         print_canonical (chunk_json ex_chunk_m) = ex_chunk /\
+         text_okb (chunk_json ex_chunk_m) = true /\
+         forallb delta_okb (sl_elems (ckm_deltas ex_chunk_m)) = true /\
+         map (option_map norm_delta) (sl_elems (ckm_deltas ex_chunk_m)) =
+         sl_elems (ckm_deltas ex_chunk_m) /\ Datatypes.length (sl_elems (ckm_deltas ex_chunk_m)) = 3.
+Proof. exact ex_chunk_written. Qed.
+Print Assumptions C13_bytes_roundtrip_nonvacuous_chunk.
+
+(* the round trip theorem applied to that file *)
+Theorem C13_bytes_roundtrip_instance :
+  decode_core_index (print_canonical (core_index_json ex_core_m)) = Some ex_core_m.
+Proof. exact ex_round_trip. Qed.
+Print Assumptions C13_bytes_roundtrip_instance.
